@@ -64,6 +64,12 @@ add("C04", "exploration",
     "deterministic simulation of the augmentation RNG: seeded draws + content-decoding oracle on coordinate-carrying frames",
     "DESIGN.md section 5 C04")
 
+add("C18", "exploration",
+    "Seeded label sets x model type x configuration: the in-memory dataset is the reference model; the npz-chunk dataset (real file round trip, incl. re-open with use_existing_chunks) and the chunk-function -> streaming __getitem__ path are read in a seeded order and compared key by key (images within 1/255, keypoints 1e-4, maps 1e-5); each legacy DataPipe block is compared with its functional counterpart on seeded examples.",
+    "litdata's optimize()/binary store is replaced by an in-memory list (deep copies); compared only where the docs prescribe the same order of operations; singleton-axis differences in keypoint tensors and the num_instances bookkeeping field are not counted.",
+    "deterministic simulation: seeded read histories over three storage back ends with the in-memory dataset as executable reference model",
+    "DESIGN.md section 5 C18")
+
 PENDING = ["C02","C03","C04","C09","C10","C11","C12","C14","C18","C19"]
 
 def main():
